@@ -348,6 +348,7 @@ pub const V_OPCQ: u8 = 4; // `*OPC` sets its bit without leaving a -800 item in 
 pub const V_LAZYC: u8 = 8; // like V_LAZY, but written at the unit's first header/data call (even an empty one)
 pub const V_DEFER: u8 = 16; // separator attempted before the handler, its failure reported by the handler's finish()
 pub const V_CLEAR: u8 = 32; // the formatter empties a non-empty buffer at message_start instead of appending to it
+pub const V_NOWRITE: u8 = 64; // a register write whose unit is refused for surplus parameters is not applied
 
 
 /// A syntactically valid non-decimal literal whose value needs more than 64 bits: no token can
@@ -575,6 +576,9 @@ struct Interp<'a> {
     opc_quiet: bool,
     opc_seen: bool,
     lazy_call: bool,
+    nowrite: bool,
+    /// further open choices met while interpreting (variant flags)
+    wants: u8,
 }
 
 enum UnitEnd {
@@ -920,7 +924,14 @@ impl<'a> Interp<'a> {
                     }
                 };
                 consumed = 1;
+                // surplus parameters: the unit is refused after (or, equally acceptable, before)
+                // the register was written
+                let refused_later = n > 1 || p != usize::MAX;
+                if refused_later {
+                    self.wants |= V_NOWRITE;
+                }
                 match c {
+                    _ if refused_later && self.nowrite => {}
                     Contrib::Ese => self.st.ese = v as u8,
                     Contrib::Sre => self.st.sre = v as u8,
                     Contrib::StatReg(r, RegCmd::Enable) => self.st.reg(r).enable = v as u16,
@@ -994,7 +1005,7 @@ pub fn predict(root: &MNode, st: &ModelState, step: &SendStep, reading: Reading)
                 wanted |= V_LAZYC;
                 more |= V_LAZYC;
             }
-            for m in 1u8..64 {
+            for m in 1u8..128 {
                 // (the three framing alternatives exclude each other)
                 if m & !wanted != 0 || (m & (V_LAZY | V_LAZYC | V_DEFER)).count_ones() > 1 {
                     continue;
@@ -1097,6 +1108,8 @@ fn predict_with(root: &MNode, st: &ModelState, step: &SendStep, reading: Reading
         opc_quiet: variant & V_OPCQ != 0,
         opc_seen: false,
         lazy_call: variant & V_LAZYC != 0,
+        nowrite: variant & V_NOWRITE != 0,
+        wants: 0,
     };
     let cap = match &step.fmt {
         FmtCfg::Array { cap } => Some(*cap),
@@ -1230,6 +1243,6 @@ fn predict_with(root: &MNode, st: &ModelState, step: &SendStep, reading: Reading
         resolved_units,
         why_not_structural: it.why,
         alts: Vec::new(),
-        alt_wanted: alt_wanted | if it.opc_seen { V_OPCQ } else { 0 },
+        alt_wanted: alt_wanted | it.wants | if it.opc_seen { V_OPCQ } else { 0 },
     }
 }
